@@ -1711,6 +1711,31 @@ package badger
 //@   assert[not-already-compacting] before call append#1 : !beingCompacted && held(s.cstatus.RWMutex)
 //@   assert[at-least-four] before return#2 : !result && len(out) < 4
 
+// ---- what is synced, and when (C10): call-order obligations ----
+
+// A log file is synced before it is closed for writing when SyncWrites is on.
+//@ func (*logFile).doneWriting
+//@   props C10
+//@   light
+//@   assert[synced-before-truncation] before call Truncate : lf.opt.SyncWrites ==> called(Sync#1) && ret(Sync#1) == nil
+//@   assert[truncated-at-write-offset] before call Truncate : arg0 == lf && arg1 == int64(offset) && held(lf.lock)
+
+// The deferred step of valueLog.write: with SyncWrites the current value log file is synced
+// before write returns (and so before the memtable is written and the commit acknowledged).
+//@ func (*valueLog).write.$1
+//@   props C10
+//@   light
+//@   assert[sync-current-file] before call Sync : vlog.opt.SyncWrites && arg0 == curlf.MmapFile
+
+// buildChangeSet: a compaction's change set creates every new table on the next level with its
+// own id, key id and compression and deletes every input table (in-memory top tables excepted).
+//@ func buildChangeSet
+//@   props C08 C17 C14
+//@   light
+//@   assert[new-tables-on-next-level] before call newCreateChange : arg0 == ret(ID#1) && arg1 == cd.nextLevel.level && arg2 == ret(KeyID#1) && arg3 == ret(CompressionType#1)
+//@   assert[top-inputs-deleted] before call newDeleteChange#1 : arg0 == ret(ID#2) && !table.IsInmemory
+//@   assert[bottom-inputs-deleted] before call newDeleteChange#2 : arg0 == ret(ID#3)
+
 // ---- call-order rules that recovery relies on (C08, C10): ordering obligations only ----
 // Neither property is decided (a crash point is a cut through the effects of several
 // goroutines; a power loss needs a model of which writes survive). What is checked is that the
